@@ -117,3 +117,21 @@ Definition run_negotiate (v : val) : val :=
 Definition prop_negotiate (input impl : val) : option Z :=
   if val_eqb impl (run_negotiate input) then None else Some 1.
 Definition chk_c10_neg : val -> val := mk_chk run_negotiate prop_negotiate.
+
+(* ---------- the target's allow-listed response header and trailer (part trailers) ----------
+   input ( server-streaming messages outcome-code sse ) ; impl ( header-as-header trailer-as-header trailer-as-http-trailer status )
+   6: the allow-listed response header is not an HTTP header of the response
+   7: the allow-listed trailer is not visible: it must be an HTTP HEADER whenever nothing had been written when the call
+      ended (an error or an empty stream before the first message, unary calls), and at least an HTTP trailer otherwise *)
+Definition chk_c10_trailers (c : val) : val :=
+  let input := nthv 0 c in
+  let impl := nthv 1 c in
+  let streaming := as_bool (nthv 0 input) in
+  let nmsgs := as_Z (nthv 1 input) in
+  let hdr := as_bool (nthv 0 impl) in
+  let trl_h := as_bool (nthv 1 impl) in
+  let trl_t := as_bool (nthv 2 impl) in
+  if negb hdr then verdict_propfail 6 (VL [])
+  else if (negb streaming || Z.eqb nmsgs 0) && negb trl_h then verdict_propfail 7 (VL [])
+  else if negb (trl_h || trl_t) then verdict_propfail 7 (VL [])
+  else verdict_ok.
